@@ -156,6 +156,12 @@ pub fn corpus() -> Vec<(String, String)> {
         "all_forms".into(),
         "data List[A] { Nil, Cons(x: A, xs: List[A]) }\ncodata Fun[A, B] { ap(x: A): B }\ndef g(k :cns i64, v: i64): i64 { goto k (v) }\ndef main(n: i64): i64 { let l: List[i64] = Cons(n, Nil); let f: Fun[i64, i64] = new { ap(q) => q + 1 }; println_i64(label a { if n == 0 { g(a, 1) } else { l.case[i64] { Nil => exit 3, Cons(h, t) => f.ap[i64, i64](h) * (2 - n) } } }); 0 }\n".into(),
     ));
+    // two pairs of declared types of the same shape, all instantiated at the same type arguments
+    // (identifier swaps then produce xtors of the wrong type whose instance exists)
+    v.push((
+        "twin_types".into(),
+        "data List[A] { Nil, Cons(x: A, xs: List[A]) }\ndata Opt[A] { None, Some(x: A) }\ncodata Fun[A, B] { ap(x: A): B }\ncodata Lazy[A, B] { force(x: A): B }\ndef len(l: List[i64]): i64 { l.case[i64] { Nil => 0, Cons(x, xs) => 1 + len(xs) } }\ndef get(o: Opt[i64]): i64 { o.case[i64] { None => 0, Some(x) => x } }\ndef run(f: Fun[i64, i64], g: Lazy[i64, i64]): i64 { f.ap[i64, i64](g.force[i64, i64](1)) }\ndef main(n: i64): i64 { println_i64(get(Some(len(Cons(n, Nil))))); println_i64(get(None)); run(new { ap(x) => x + n }, new { force(x) => x * 2 }) }\n".into(),
+    ));
     v
 }
 
@@ -251,6 +257,31 @@ pub fn worker(ctx: &WorkerCtx) -> Report {
                 let s: String = t.concat();
                 rep.distinct.push(hash64(&s));
                 handle(&s, &format!("{name}: insert `{}` before token {pos}", a.escape_debug()), &mut rep);
+            }
+        }
+        // every identifier occurrence replaced by every other identifier of the same program
+        let is_ident = |t: &str| t.chars().next().is_some_and(|c| c.is_alphabetic() || c == '_');
+        let mut idents: Vec<&str> = toks.iter().map(|t| t.as_str()).filter(|t| is_ident(t)).collect();
+        idents.sort();
+        idents.dedup();
+        let stride = if thorough || toks.len() < 400 { 1 } else { 4 };
+        for &pos in &significant {
+            if !is_ident(&toks[pos]) {
+                continue;
+            }
+            for (ai, a) in idents.iter().enumerate() {
+                if *a == toks[pos] || (ai + pos) % stride != 0 {
+                    continue;
+                }
+                idx += 1;
+                if !ctx.mine(idx) {
+                    continue;
+                }
+                let mut t = toks.clone();
+                t[pos] = a.to_string();
+                let s: String = t.concat();
+                rep.distinct.push(hash64(&s));
+                handle(&s, &format!("{name}: replace identifier at token {pos} by `{a}`"), &mut rep);
             }
         }
         if ctx.out_of_time() {
